@@ -220,6 +220,184 @@ theorem size_eq_written_reachable (t : Nat) (ops : List Op) :
     (write (ops.foldl step (new t))).length = size (ops.foldl step (new t)) :=
   size_eq_written _ (inv_steps t ops)
 
+/-! ### decoding a written form returns exactly the fields that were written -/
+
+def testBit (n j : Nat) : Bool := (n / 2 ^ j) % 2 == 1
+
+/-- partial mask: bits below `n` -/
+def blockUpTo (f : Nat → Bool) (n : Nat) : Nat :=
+  (List.range n).foldl (fun acc j => if f j then acc + 2 ^ j else acc) 0
+
+theorem blockUpTo_succ (f : Nat → Bool) (n : Nat) :
+    blockUpTo f (n + 1) = (if f n then blockUpTo f n + 2 ^ n else blockUpTo f n) := by
+  simp [blockUpTo, List.range_succ, List.foldl_append]
+
+theorem blockUpTo_lt (f : Nat → Bool) (n : Nat) : blockUpTo f n < 2 ^ n := by
+  induction n with
+  | zero => simp [blockUpTo]
+  | succ n ih =>
+    rw [blockUpTo_succ, Nat.pow_succ]
+    split <;> omega
+
+theorem testBit_blockUpTo (f : Nat → Bool) (n j : Nat) (hj : j < n) : testBit (blockUpTo f n) j = f j := by
+  induction n with
+  | zero => omega
+  | succ n ih =>
+    rw [blockUpTo_succ]
+    have hlt := blockUpTo_lt f n
+    by_cases hjn : j = n
+    · subst hjn
+      by_cases hf : f j = true
+      · simp only [hf, if_true, testBit]
+        have : (blockUpTo f j + 2 ^ j) / 2 ^ j = 1 := by
+          rw [Nat.add_div_right _ (Nat.two_pow_pos j), Nat.div_eq_of_lt hlt]
+        simp [this]
+      · have hf' : f j = false := by simpa using hf
+        simp only [hf', testBit]
+        simp [Nat.div_eq_of_lt hlt]
+    · have hj' : j < n := by omega
+      by_cases hf : f n = true
+      · simp only [hf, if_true]
+        rw [← ih hj']
+        simp only [testBit]
+        have hsplit : 2 ^ n = 2 ^ (n - j) * 2 ^ j := by rw [← Nat.pow_add]; congr 1; omega
+        rw [hsplit, Nat.add_mul_div_right _ _ (Nat.two_pow_pos j)]
+        have heven : 2 ^ (n - j) % 2 = 0 := by
+          have : n - j = (n - j - 1) + 1 := by omega
+          rw [this, Nat.pow_succ]; omega
+        congr 1
+        omega
+      · have hf' : f n = false := by simpa using hf
+        simp only [hf']
+        exact ih hj'
+
+theorem block_eq (s : UM) (i : Nat) : block s i = blockUpTo (fun j => sent s (32 * i + j)) 32 := rfl
+
+theorem block_lt (s : UM) (i : Nat) : block s i < 256 ^ 4 := by
+  rw [block_eq]; exact blockUpTo_lt _ 32
+
+theorem testBit_block (s : UM) (i j : Nat) (hj : j < 32) : testBit (block s i) j = sent s (32 * i + j) := by
+  rw [block_eq, testBit_blockUpTo _ 32 j hj]
+
+/-- `read_u32_le` n times -/
+def readWords : Nat → Bytes → Option (List Nat × Bytes)
+  | 0, bs => some ([], bs)
+  | n + 1, bs => if 4 ≤ bs.length then
+      match readWords n (bs.drop 4) with
+      | some (ws, r) => some (decLE (bs.take 4) :: ws, r)
+      | none => none
+    else none
+
+theorem readWords_flatMap (l : List Nat) (rest : Bytes) (h : ∀ x ∈ l, x < 256 ^ 4) :
+    readWords l.length (l.flatMap (encLE 4) ++ rest) = some (l, rest) := by
+  induction l with
+  | nil => simp [readWords]
+  | cons x l ih =>
+    have hx := h x (by simp)
+    have hl : ∀ y ∈ l, y < 256 ^ 4 := fun y hy => h y (by simp [hy])
+    simp only [List.length_cons, List.flatMap_cons, List.append_assoc, readWords]
+    have h4 : 4 ≤ (encLE 4 x ++ (l.flatMap (encLE 4) ++ rest)).length := by simp
+    simp only [h4, if_true]
+    have ht : (encLE 4 x ++ (l.flatMap (encLE 4) ++ rest)).take 4 = encLE 4 x := by
+      have := take_append_length (encLE 4 x) (l.flatMap (encLE 4) ++ rest)
+      simpa using this
+    have hd : (encLE 4 x ++ (l.flatMap (encLE 4) ++ rest)).drop 4 = l.flatMap (encLE 4) ++ rest := by
+      have := drop_append_length (encLE 4 x) (l.flatMap (encLE 4) ++ rest)
+      simpa using this
+    rw [ht, hd, ih hl, decLE_encLE 4 x hx]
+
+/-- the field indices a header announces, in ascending order -/
+def setBits (blocks : List Nat) : List Nat :=
+  (List.range (32 * blocks.length)).filter (fun k => testBit (blocks.getD (k / 32) 0) (k % 32))
+
+/-- `read_inner` of update_mask_common: block count, blocks, one u32 per set bit in ascending order -/
+def readWire (bs : Bytes) : Option (List Nat × List (Nat × Nat) × Bytes) :=
+  match bs with
+  | [] => none
+  | n :: rest =>
+    match readWords n.toNat rest with
+    | none => none
+    | some (blocks, r1) =>
+      let idx := setBits blocks
+      match readWords idx.length r1 with
+      | none => none
+      | some (vals, r2) => some (blocks, idx.zip vals, r2)
+
+theorem setBits_blocks (s : UM) : setBits ((List.range s.nblocks).map (block s)) = (List.range (32 * s.nblocks)).filter (fun b => sent s b) := by
+  simp only [setBits, List.length_map, List.length_range]
+  apply List.filter_congr
+  intro k hk
+  have hk' : k < 32 * s.nblocks := by simpa using hk
+  have hi : k / 32 < s.nblocks := by omega
+  have : ((List.range s.nblocks).map (block s)).getD (k / 32) 0 = block s (k / 32) := by
+    simp [List.getD, hi]
+  rw [this, testBit_block s (k / 32) (k % 32) (by omega)]
+  congr 1
+  omega
+
+/-- the keys of the values on the wire are the sent fields in ascending order -/
+theorem sent_keys (s : UM) (h : Inv s) :
+    keys (s.values.filter (fun kv => sent s kv.1)) = (List.range (32 * s.nblocks)).filter (fun b => sent s b) := by
+  have e1 : keys (s.values.filter (fun kv => sent s kv.1)) = (keys s.values).filter (fun b => sent s b) := by
+    simp only [keys, List.filter_map]; rfl
+  rw [e1]
+  apply sorted_ext
+  · exact h.sorted.filter _
+  · exact (range_sorted _).filter _
+  · intro a
+    simp only [List.mem_filter, List.mem_range]
+    constructor
+    · rintro ⟨ha, hs⟩
+      exact ⟨h.inRange a ((h.keysHeader a).mp ha), hs⟩
+    · rintro ⟨_, hs⟩
+      refine ⟨(h.keysHeader a).mpr ?_, hs⟩
+      simp only [sent, Bool.and_eq_true, List.contains_eq_mem, decide_eq_true_eq] at hs
+      exact hs.1
+
+private theorem zip_keys_vals (l : List (Nat × Nat)) : (keys l).zip (l.map (·.2)) = l := by
+  induction l with
+  | nil => rfl
+  | cons a l ih => simp [keys] at *; exact ih
+
+/-- **read ∘ write**: for every state satisfying the invariant (every reachable state) whose block count fits the count byte and
+whose values are 32-bit, the reader of the wire form returns the masked blocks and exactly the (index, value) pairs that
+were written, in ascending index order, and consumes everything -/
+theorem read_write (s : UM) (h : Inv s) (hn : s.nblocks < 256) (hv : ∀ kv ∈ s.values, kv.2 < 256 ^ 4) :
+    readWire (write s) = some ((List.range s.nblocks).map (block s), s.values.filter (fun kv => sent s kv.1), []) := by
+  have hw : write s = UInt8.ofNat s.nblocks :: (((List.range s.nblocks).map (block s)).flatMap (encLE 4)
+      ++ (((s.values.filter (fun kv => sent s kv.1)).map (·.2)).flatMap (encLE 4) ++ [])) := by
+    simp [write, List.flatMap_map]
+  rw [hw]
+  simp only [readWire]
+  have hcnt : (UInt8.ofNat s.nblocks).toNat = s.nblocks := by
+    simp [UInt8.toNat_ofNat]; omega
+  rw [hcnt]
+  have hb := readWords_flatMap ((List.range s.nblocks).map (block s))
+    (((s.values.filter (fun kv => sent s kv.1)).map (·.2)).flatMap (encLE 4) ++ [])
+    (by intro x hx; obtain ⟨i, _, rfl⟩ := List.mem_map.mp hx; exact block_lt s i)
+  simp only [List.length_map, List.length_range] at hb
+  rw [hb]
+  simp only
+  rw [setBits_blocks, ← sent_keys s h]
+  have hlen : (keys (s.values.filter (fun kv => sent s kv.1))).length = ((s.values.filter (fun kv => sent s kv.1)).map (·.2)).length := by
+    simp [keys]
+  have hvals := readWords_flatMap ((s.values.filter (fun kv => sent s kv.1)).map (·.2)) []
+    (by intro x hx; obtain ⟨kv, hkv, rfl⟩ := List.mem_map.mp hx; exact hv kv (List.mem_filter.mp hkv).1)
+  rw [hlen, hvals]
+  simp only [zip_keys_vals]
+
+/-- … in particular on every state reachable by typed setters with 32-bit values (the setters take `u32`/`i32`/`f32`/`Guid`
+halves) while the mask has fewer than 256 blocks (the largest object, a TBC player, has 50) -/
+theorem read_write_reachable (t : Nat) (ops : List Op) (hn : (ops.foldl step (new t)).nblocks < 256)
+    (hv : ∀ kv ∈ (ops.foldl step (new t)).values, kv.2 < 256 ^ 4) :
+    readWire (write (ops.foldl step (new t))) =
+      some ((List.range (ops.foldl step (new t)).nblocks).map (block (ops.foldl step (new t))),
+            (ops.foldl step (new t)).values.filter (fun kv => sent (ops.foldl step (new t)) kv.1), []) :=
+  read_write _ (inv_steps t ops) hn hv
+
+example : readWire (write (step (step (new 25) (.guid 0 4 0)) (.set 22 100))) =
+    some ([0x400007], [(0, 4), (1, 0), (2, 25), (22, 100)], []) := by rfl
+
 /-! ### non-vacuity -/
 example : write (step (step (new 25) (.guid 0 4 0)) (.set 22 100)) =
     [1, 0x07, 0x00, 0x40, 0x00, 4, 0, 0, 0, 0, 0, 0, 0, 25, 0, 0, 0, 100, 0, 0, 0] := by rfl
@@ -233,3 +411,5 @@ open WowVerif.UpdateMask in
 #print axioms get_last_set
 open WowVerif.UpdateMask in
 #print axioms size_eq_written_reachable
+open WowVerif.UpdateMask in
+#print axioms read_write
